@@ -64,6 +64,7 @@ ADV = {"g": ["g", "g1", "g_", "gg", "g1a", "g-1", "g.1", "G2", "g11"], "r": ["r"
 def layout_form(prefix, tsuf, rsuf, style, target_first, ref_kind, with_cells=True):
     """common prefix containers, then two branches: target chain ending in question tgt, referrer chain ending in the referrer."""
     names = {"g": iter((ADV if style == "adv" else PLAIN)["g"]), "r": iter((ADV if style == "adv" else PLAIN)["r"])}
+    extras = []
 
     def sec(k):
         nm = next(names[k])
@@ -91,6 +92,8 @@ def layout_form(prefix, tsuf, rsuf, style, target_first, ref_kind, with_cells=Tr
                  "read_only": f"{R} = 3", "constraint_message": f"msg {R}", "default": f"{R} + 1", "choice_filter": f"name != {R} and cf = {R}",
                  "parameters": f"randomize=true seed={R}", "instance::xattr": f"{R}", "body::kb:flag": f"{R}", "bind::odk:x": f"{R} * 2"}
         rq = Row("q", f"select_one {lst}", "refq", cells)
+        # an external select (external_choices sheet) next to it: its filter lives in input/@query and needs current() like any predicate
+        extras = [Row("q", "select_one_external ext", "refx", {"label": "x", "choice_filter": f"state={R} and cf = {R}"})]
     elif ref_kind == "calc":
         rq = Row("q", "calculate", "refq", {"calculation": f"{R} + indexed-repeat({R}, /data/x, 1) + ${{last-saved#{tname}}}",
                                             "relevant": f"instance('{lst}')/root/item[name = {R}]/label != '' and pulldata('f', 'a', 'b', {R})"})
@@ -114,14 +117,19 @@ def layout_form(prefix, tsuf, rsuf, style, target_first, ref_kind, with_cells=Tr
     if not with_cells:
         rq.cells = {"label": "x", "relevant": f"{R} > 1"}
     rb = rq
+    first = True
     for k in reversed(rsuf):
         s = sec(k)
-        s.children = [rb]
+        s.children = [rb] + (extras if first else [])
+        first = False
         rb = s
+    tail = extras if not rsuf else []
     if target_first:
-        base.extend([tb, rb])
+        base.extend([tb, rb] + tail)
     else:
-        base.extend([rb, tb])
+        base.extend([rb] + tail + [tb])
+    if extras:
+        f.external_choices = [{"list_name": "ext", "name": "e1", "label": "E1", "state": "s1", "cf": "1"}, {"list_name": "ext", "name": "e2", "label": "E2", "state": "s2", "cf": "2"}]
     if style == "case":
         # a decoy whose name differs from the target's only by case, elsewhere in the form: no reference may land on it
         f.survey.append(Row("group", "begin group", "decoy_zone", {"label": "D"}, [Row("q", "integer", tname.lower(), {"label": "decoy"})]))
@@ -459,6 +467,13 @@ def check_form(ctx, form, klass, sig):
                 mm = re.search(r"\[(.*)\]", ns, re.S)
                 if mm:
                     J.judge("choice_filter", e, cf, mm.group(1), need_current=True)
+            qy = ctl[e.path].get("query")
+            if qy and cf and "${" in cf and base_t(r) == "select_one_external":
+                mm = re.search(r"\[(.*)\]", qy, re.S)
+                if mm:
+                    J.judge("choice_filter-external", e, cf, mm.group(1), need_current=True)
+                else:
+                    ctx.viol("choice_filter-external:no-predicate", f"{e.path}: query {qy!r} carries no predicate for filter {cf!r}", J.wit(cell="choice_filter"))
             prm = refmodel.parse_params(r.cells.get("parameters"))
             if ns and "seed" in prm and "${" in (r.cells.get("parameters") or ""):
                 sm = re.search(r"seed=(\$\{[^}]+\})", r.cells["parameters"])
@@ -501,6 +516,30 @@ def _judge_segments(J, kind, e, source, segs):
 
 
 # ----------------------------------------------------------------------------- negative forms
+def indexed_repeat_forms():
+    """indexed-repeat() with one, two and three (repeat, index) pairs, written at every depth of a 3-level repeat nest and outside it."""
+    for depth in (1, 2, 3):
+        for where in ("top", "r1", "r2", "r3"):
+            for pair in (False, True):
+                q = Row("q", "integer", "iq", {"label": "q"})
+                r3 = Row("repeat", "begin repeat", "ir3", {"label": "3"}, [q])
+                r2 = Row("repeat", "begin repeat", "ir2", {"label": "2"}, [Row("q", "integer", "p2", {"label": "p2"}), r3])
+                r1 = Row("repeat", "begin repeat", "ir1", {"label": "1"}, [Row("q", "integer", "p1", {"label": "p1"}), r2])
+                args = ["${iq}", "${ir1}", "1", "${ir2}", "${p2}" if where in ("r2", "r3") else "2", "${ir3}", "3"][: 1 + 2 * depth]
+                if depth < 3:
+                    # the inner repeats still exist; indexing fewer levels is legal XPath-wise for this check (only paths are judged)
+                    pass
+                expr = f"indexed-repeat({', '.join(args)})"
+                if pair:
+                    expr = f"concat({expr}, indexed-repeat(${{iq}}, ${{ir1}}, 2))"
+                calc = Row("q", "calculate", "ircalc", {"calculation": expr})
+                {"top": None, "r1": r1, "r2": r2, "r3": r3}[where].children.append(calc) if where != "top" else None
+                f = Form()
+                f.survey = [r1] + ([calc] if where == "top" else [])
+                f.settings = {"form_id": "ir"}
+                yield f, f"indexed-repeat|depth{depth}|{where}|{'pair' if pair else 'single'}"
+
+
 def negative_cases(ctx):
     n = 0
     styles = [("missing", 0)] + [("duplicate", k) for k in (2, 3, 4, 5)]
@@ -564,6 +603,10 @@ def run_shard(ctx):
                             p = check_form(ctx, form, "layout", sig)
                             if n <= 2 and p is not None:
                                 ctx.sample({"layout": sig, "form_md": common.sheets_to_md(form.to_sheets())[:1200], "observed": "all substituted paths resolve to the target"})
+    for k, (form, sig) in enumerate(indexed_repeat_forms()):
+        if ctx.mine(k):
+            ctx.ctr("indexed_repeat_forms")
+            check_form(ctx, form, "indexed-repeat", sig)
     # random W-core with many references
     for i in range(pl["n_random"]):
         if not ctx.mine(i):
